@@ -3,7 +3,7 @@ CONSTANTS
   SetNK = 4
   Vals = {"", "a", "b"}
   Flavours = {"map", "set"}
-  NilEnc = {FALSE, TRUE}
+  EmptyEncs = {"empty", "nil"}
   Modes = {"full", "lazy"}
 INVARIANTS TypeOK ObsOK
 PROPERTIES Steps
